@@ -9,7 +9,7 @@ from props import _sift as S
 
 ID = 'C04'
 LEAN_MODULES = ['Proofs.C04']
-REQUIRED = ['C04.run_spec', 'C04.spec_unique', 'C04.iter_succ', 'C04.stopped_full_mean', 'C04.fixed_count',
+REQUIRED = ['C04.run_spec', 'C04.spec_unique', 'C04.iter_succ', 'C04.exit_within_limit', 'C04.stopped_full_mean', 'C04.fixed_count',
             'C04.fixed_never_convergeError', 'C04.convergeError_iff', 'C04.flag_false_iff', 'C04.energy_flag',
             'C04.result_length']
 TRUSTED = ['envelope values are an oracle: the table handed to the model holds the upper/lower envelopes returned by the real '
